@@ -453,6 +453,20 @@ pub fn run_cnf_large(case: &BigCnfCase, st: &mut Stats) -> CaseResult {
     let b = RobddBuilder::<rsdd::builder::cache::AllIteTable<BddPtr>>::new(VarOrder::new(&labels));
     let r = b.compile_cnf(&cnf);
     check("bdd", &|a| bdd_eval(r, a))?;
+    // the route through a decomposition tree and its plan on the same builder (clauses of a dozen literals over a dozen
+    // and more variables become plan leaves here, which the 8-variable sub-checks cannot have without tautologies)
+    if !clauses.is_empty() && !clauses.iter().any(|c| c.is_empty()) {
+        let elim = match (case.seed >> 3) & 1 {
+            0 => cnf.linear_order(),
+            _ => VarOrder::new(&labels),
+        };
+        let dt = DTree::from_cnf(&cnf, &elim);
+        let plan = BottomUpPlan::from_dtree(&dt);
+        let pr = b.compile_plan(&plan);
+        check("dtree-plan-bdd", &|a| bdd_eval(pr, a))?;
+        st.bump("large.dtree_plan");
+        st.flag("large.dtree_plan_with_a_clause_of_9_or_more_literals", clauses.iter().any(|c| c.len() >= 9));
+    }
     // compile under a partial assignment = compile, then condition (same diagram), and the right function
     let mut pmv: Vec<Option<bool>> = vec![None; n];
     for (v, val) in case.partial.iter() {
@@ -524,7 +538,12 @@ impl SubCheckT for CnfLarge {
         // a second family: many and wide clauses (20..60 clauses of 3..12 literals) over 12..28 contiguous labels
         let dense = (12u8..=28).prop_flat_map(|nv| proptest::collection::vec(proptest::collection::vec((0..nv, any::<bool>()), 3..=12), 20..=60));
         (
-            prop_oneof![5 => proptest::collection::vec(proptest::collection::vec(lit, 1..=4), 1..=10), 1 => dense],
+            prop_oneof![
+                5 => proptest::collection::vec(proptest::collection::vec(lit, 1..=4), 1..=10),
+                1 => dense,
+                // a few clauses of 9..17 literals (lengths on both sides of 8 and 16) with short ones
+                1 => (14u8..=40).prop_flat_map(|nv| proptest::collection::vec(prop_oneof![1 => proptest::collection::vec((0..nv, any::<bool>()), 1..=3), 2 => proptest::collection::vec((0..nv, any::<bool>()), 9..=17)], 2..=8)),
+            ],
             any::<u64>(),
             0u8..4,
             proptest::collection::vec((any::<u8>(), any::<bool>()), 0..=4),
